@@ -2,7 +2,7 @@ import RreModel.C11.Engine
 import RreModel.C11.Lemmas
 /-
 C11 — lemmas about the engine state machine (`RreModel/C11/Engine.lean`): one call keeps the cache invariant and hands
-back what a fresh engine hands back.
+back what a fresh engine hands back; knowledge-base edits move the version or change nothing.
 -/
 namespace C11
 open C09 (Atom Rule Strategy Facts Naming QueryOut)
@@ -10,39 +10,52 @@ variable {Q K : Type} [DecidableEq K]
 
 theorem lookup_nil (k : K) : lookup ([] : List (K × Bool)) k = none := rfl
 
+/-- `KnowledgeBase` edits never lower the version … -/
+theorem kbStep_version_le (kb : C09.Kb) (op : C09.KbOp) : kb.version ≤ (C09.kbStep kb op).version := by
+  cases op <;> simp only [C09.kbStep] <;> (try split) <;> simp
+
+/-- … and an edit that leaves the version where it was changed nothing (rejected `add_rule` of an existing name,
+`remove_rule` / `set_rule_enabled` of an unknown one) -/
+theorem kbStep_version_eq (kb : C09.Kb) (op : C09.KbOp) (h : (C09.kbStep kb op).version = kb.version) :
+    C09.kbStep kb op = kb := by
+  cases op <;> simp only [C09.kbStep] at h ⊢ <;> (try split at h) <;> simp_all
+
 /-- a fresh engine always searches -/
-theorem engineQuery_new (S : Search Q) (nf : Nat) (key : Q → Nat → Facts → K) (c : Config) (q : Q) (ord : Ord) (f : Facts) :
-    (engineQuery S nf key (Eng.new c) q ord f).1 = outOf nf (S c c.maxSol q ord f) := by
+theorem engineQuery_new (S : Search Q) (nf : Nat) (key : Nat → Q → Nat → Facts → K) (r : C09.Eng) (c : Config) (q : Q)
+    (ord : Ord) (f : Facts) :
+    (engineQuery S nf key (Eng.new r c) q ord f).1 = outOf nf (S r c c.maxSol q ord f) := by
   unfold engineQuery
   cases hm : c.memo <;> simp [Eng.new, hm, lookup_nil]
 
 omit [DecidableEq K] in
-theorem engCacheOK_new (S : Search Q) (key : Q → Nat → Facts → K) (P : Ord → Prop) (c : Config) :
-    EngCacheOK S key P (Eng.new c) := by
+theorem engCacheOK_new (S : Search Q) (key : Nat → Q → Nat → Facts → K) (P : Ord → Prop) (r : C09.Eng) (c : Config) :
+    EngCacheOK S key P (Eng.new r c) := by
   intro k b hm
   cases hm
 
 /-- the result of `engineQuery`, by cases of the lookup -/
-theorem engineQuery_hit (S : Search Q) (nf : Nat) (key : Q → Nat → Facts → K) (e : Eng K) (q : Q) (ord : Ord) (f : Facts)
-    (b : Bool) (h : (if e.cfg.memo then lookup e.cache (key q e.cfg.maxSol f) else none) = some b) :
+theorem engineQuery_hit (S : Search Q) (nf : Nat) (key : Nat → Q → Nat → Facts → K) (e : Eng K) (q : Q) (ord : Ord) (f : Facts)
+    (b : Bool) (h : (if e.cfg.memo then lookup e.cache (key e.rules.kb.version q e.cfg.maxSol f) else none) = some b) :
     engineQuery S nf key e q ord f = (⟨b, 0, true, f⟩, e) := by
   unfold engineQuery
   simp only [h]
 
-theorem engineQuery_miss (S : Search Q) (nf : Nat) (key : Q → Nat → Facts → K) (e : Eng K) (q : Q) (ord : Ord) (f : Facts)
-    (h : (if e.cfg.memo then lookup e.cache (key q e.cfg.maxSol f) else none) = none) :
+theorem engineQuery_miss (S : Search Q) (nf : Nat) (key : Nat → Q → Nat → Facts → K) (e : Eng K) (q : Q) (ord : Ord) (f : Facts)
+    (h : (if e.cfg.memo then lookup e.cache (key e.rules.kb.version q e.cfg.maxSol f) else none) = none) :
     engineQuery S nf key e q ord f =
-      (outOf nf (S e.cfg e.cfg.maxSol q ord f),
-       if e.cfg.memo then { e with cache := (key q e.cfg.maxSol f, (S e.cfg e.cfg.maxSol q ord f).provable) :: e.cache } else e) := by
+      (outOf nf (S e.rules e.cfg e.cfg.maxSol q ord f),
+       if e.cfg.memo then
+         { e with cache := (key e.rules.kb.version q e.cfg.maxSol f, (S e.rules e.cfg e.cfg.maxSol q ord f).provable) :: e.cache }
+       else e) := by
   unfold engineQuery
   simp only [h]
 
 /-- one `query`: fresh answer, invariant kept -/
-theorem engineQuery_ok (S : Search Q) (nf : Nat) (key : Q → Nat → Facts → K) (P : Ord → Prop) (hk : KeyDet key)
-    (e : Eng K) (he : EngCacheOK S key P e) (q : Q) (ord : Ord) (hP : P ord) (f : Facts) :
-    StepFresh S nf key P (e, f) (.query q ord) ∧ EngCacheOK S key P (engineQuery S nf key e q ord f).2
-      ∧ (engineQuery S nf key e q ord f).2.cfg = e.cfg := by
-  cases h : (if e.cfg.memo then lookup e.cache (key q e.cfg.maxSol f) else none) with
+theorem engineQuery_ok (S : Search Q) (nm : Naming) (nf : Nat) (key : Nat → Q → Nat → Facts → K) (P : Ord → Prop)
+    (hk : KeyDet key) (e : Eng K) (he : EngCacheOK S key P e) (q : Q) (ord : Ord) (hP : P ord) (f : Facts) :
+    StepFresh S nm nf key P (e, f) (.query q ord) ∧ EngCacheOK S key P (engineQuery S nf key e q ord f).2
+      ∧ (engineQuery S nf key e q ord f).2.cfg = e.cfg ∧ (engineQuery S nf key e q ord f).2.rules = e.rules := by
+  cases h : (if e.cfg.memo then lookup e.cache (key e.rules.kb.version q e.cfg.maxSol f) else none) with
   | some b =>
     have hq := engineQuery_hit S nf key e q ord f b h
     have hmemo : e.cfg.memo = true := by
@@ -51,20 +64,21 @@ theorem engineQuery_ok (S : Search Q) (nf : Nat) (key : Q → Nat → Facts → 
       · rfl
     rw [hmemo] at h
     simp only [if_true] at h
-    obtain ⟨q', f', ord', hP', hkey, hb⟩ := he _ _ (lookup_some_mem h)
-    obtain ⟨h1, h2⟩ := hk _ _ _ _ _ _ hkey
-    subst h1; subst h2
-    refine ⟨?_, ?_, ?_⟩
+    obtain ⟨v', q', f', ord', hP', hkey, _, hb⟩ := he _ _ (lookup_some_mem h)
+    obtain ⟨h0, h1, h2⟩ := hk _ _ _ _ _ _ _ _ hkey
+    subst h0; subst h1; subst h2
+    refine ⟨?_, ?_, ?_, ?_⟩
     · simp only [StepFresh, hq]
-      refine ⟨⟨ord', hP', hb⟩, ?_, ?_⟩
+      refine ⟨⟨ord', hP', hb rfl⟩, ?_, ?_⟩
       · intro hc; cases hc
       · intro _; trivial
     · rw [hq]; exact he
     · rw [hq]
+    · rw [hq]
   | none =>
     have hq := engineQuery_miss S nf key e q ord f h
-    refine ⟨?_, ?_, ?_⟩
-    · simp only [StepFresh, hq, engineQuery_new]
+    refine ⟨?_, ?_, ?_, ?_⟩
+    · simp only [StepFresh, hq, Eng.fresh, engineQuery_new]
       refine ⟨⟨ord, hP, rfl⟩, ?_, ?_⟩
       · intro _; trivial
       · intro hc; simp [outOf] at hc
@@ -78,23 +92,44 @@ theorem engineQuery_ok (S : Search Q) (nf : Nat) (key : Q → Nat → Facts → 
         cases hmem with
         | inl heq =>
           cases heq
-          exact ⟨q, f, ord, hP, rfl, rfl⟩
+          exact ⟨e.rules.kb.version, q, f, ord, hP, rfl, Nat.le_refl _, fun _ => rfl⟩
         | inr hmem => exact he k b hmem
     · rw [hq]
       cases hm : e.cfg.memo <;> simp
+    · rw [hq]
+      cases hm : e.cfg.memo <;> simp
+
+omit [DecidableEq K] in
+/-- a knowledge-base edit keeps the invariant: the version moved (every entry is dead) or nothing changed -/
+theorem engCacheOK_kb (S : Search Q) (nm : Naming) (key : Nat → Q → Nat → Facts → K) (P : Ord → Prop) (e : Eng K)
+    (he : EngCacheOK S key P e) (op : C09.KbOp) :
+    EngCacheOK S key P { e with rules := C09.engStep nm e.rules (.kb op) } := by
+  intro k b hm
+  obtain ⟨v, q, f, ord, hP, hkey, hle, hb⟩ := he k b hm
+  have hle' := kbStep_version_le e.rules.kb op
+  refine ⟨v, q, f, ord, hP, hkey, Nat.le_trans hle hle', ?_⟩
+  intro hv
+  simp only [C09.engStep] at hv ⊢
+  have hsame : (C09.kbStep e.rules.kb op).version = e.rules.kb.version := by omega
+  have hkb := kbStep_version_eq e.rules.kb op hsame
+  rw [hkb]
+  exact hb (by omega)
 
 /-- one step of any kind -/
-theorem engineStep_ok (S : Search Q) (nf : Nat) (key : Q → Nat → Facts → K) (P : Ord → Prop) (hk : KeyDet key)
-    (s : HState K) (he : EngCacheOK S key P s.1) (st : Step Q) (hP : ∀ q ord, st = .query q ord → P ord) :
-    StepFresh S nf key P s st ∧ EngCacheOK S key P (engineStep S nf key s st).1.1 := by
+theorem engineStep_ok (S : Search Q) (nm : Naming) (nf : Nat) (key : Nat → Q → Nat → Facts → K) (P : Ord → Prop)
+    (hk : KeyDet key) (s : HState K) (he : EngCacheOK S key P s.1) (st : Step Q)
+    (hP : ∀ q ord, st = .query q ord → P ord) :
+    StepFresh S nm nf key P s st ∧ EngCacheOK S key P (engineStep S nm nf key s st).1.1 := by
   obtain ⟨e, f⟩ := s
   cases st with
   | setFacts f' => exact ⟨rfl, he⟩
-  | setConfig c => exact ⟨rfl, engCacheOK_new S key P c⟩
+  | setConfig c => exact ⟨rfl, engCacheOK_new S key P _ c⟩
   | query q ord =>
-    have h := engineQuery_ok S nf key P hk e he q ord (hP q ord rfl) f
+    have h := engineQuery_ok S nm nf key P hk e he q ord (hP q ord rfl) f
     exact ⟨h.1, h.2.1⟩
   | aggregate q ord => exact ⟨rfl, he⟩
   | badAggregate => exact ⟨rfl, he⟩
+  | kb op => exact ⟨rfl, engCacheOK_kb S nm key P e he op⟩
+  | rebuild => exact ⟨rfl, engCacheOK_new S key P _ _⟩
 
 end C11
